@@ -2,6 +2,7 @@ package props
 
 import (
 	"bytes"
+	"errors"
 	"fmt"
 	"math/rand"
 	"os"
@@ -89,6 +90,36 @@ var c07Docs = []string{
 	"[a]: /1\n[b]: /2\n\n[a] [b] [A] [B]\n",
 	// every name of the shared (package-level) attribute filters, looked up through heading attributes
 	c07AllAttributes,
+	// the code span a failing node renderer of one instance kind objects to (an ordinary code span everywhere else)
+	"text before the `FAIL` span\n\nand a paragraph after it\n",
+	"- item\n\n  `FAIL`\n",
+}
+
+// c07FailRenderer renders code spans itself and returns an error for the span `FAIL`: conversions on this instance end
+// through the error exits of Render, concurrently with conversions that succeed.
+type c07FailRenderer struct{}
+
+var errC07Node = errors.New("verif: node renderer objects to this code span")
+
+func (c07FailRenderer) RegisterFuncs(reg renderer.NodeRendererFuncRegisterer) {
+	reg.Register(ast.KindCodeSpan, func(w util.BufWriter, source []byte, n ast.Node, entering bool) (ast.WalkStatus, error) {
+		if !entering {
+			return ast.WalkContinue, nil
+		}
+		var t []byte
+		for ch := n.FirstChild(); ch != nil; ch = ch.NextSibling() {
+			if tx, ok := ch.(*ast.Text); ok {
+				t = append(t, tx.Segment.Value(source)...)
+			}
+		}
+		if string(t) == "FAIL" {
+			return ast.WalkStop, errC07Node
+		}
+		_, _ = w.WriteString("<code>")
+		_, _ = w.Write(util.EscapeHTML(t))
+		_, _ = w.WriteString("</code>")
+		return ast.WalkSkipChildren, nil
+	})
 }
 
 var c07AllAttributes = func() string {
@@ -164,6 +195,9 @@ func c07Instances() []c07Instance {
 			return b.Bytes(), err
 		}
 		return f, f
+	}})
+	out = append(out, c07Instance{Name: "gfm + a node renderer that fails on one code span", Build: func() (func([]byte) ([]byte, error), func([]byte) ([]byte, error)) {
+		return c07FromMarkdown(goldmark.New(goldmark.WithExtensions(extension.GFM), goldmark.WithRendererOptions(renderer.WithNodeRenderers(util.Prioritized(c07FailRenderer{}, 10)))))
 	}})
 	out = append(out, c07Instance{Name: "package-level goldmark.Convert", Build: func() (func([]byte) ([]byte, error), func([]byte) ([]byte, error)) {
 		f := func(src []byte) ([]byte, error) {
@@ -321,6 +355,7 @@ func runC07(c *core.Ctx) {
 		parser.VerifHook, renderer.VerifHook, util.VerifHook = nil, nil, nil
 		refConv, _ := inst.Build()
 		exp := map[int][]byte{}
+		expErr := map[int]error{}
 		type iv struct{ t0, t1 int64 }
 		var ivs []iv
 		var firsts []iv
@@ -340,14 +375,23 @@ func runC07(c *core.Ctx) {
 						Detail: fmt.Sprintf("round %d, %d goroutines, GOMAXPROCS=%d: panic %v", round, G, gmp, cl.pv)})
 					continue
 				}
+				want, ok := exp[cl.doc]
+				if !ok {
+					want, expErr[cl.doc] = refConv(docs[cl.doc])
+					exp[cl.doc] = want
+				}
+				if werr := expErr[cl.doc]; werr != nil {
+					// the sequential call fails too (a node renderer's own error): the concurrent call must fail the same way
+					c.Count("calls_that_end_with_a_node_renderer_error", 1)
+					if !errors.Is(cl.err, werr) {
+						c.Violation(&core.Violation{Class: "error-lost-under-concurrency", Locus: inst.Name, Config: inst.Name, Input: docs[cl.doc],
+							Detail: fmt.Sprintf("round %d: alone the call returns the error %q, under concurrency it returned %v", round, werr, cl.err)})
+					}
+					continue
+				}
 				if cl.err != nil {
 					c.Violation(&core.Violation{Class: "error-under-concurrency", Locus: stripDigits(cl.err.Error()), Config: inst.Name, Input: docs[cl.doc], Detail: cl.err.Error()})
 					continue
-				}
-				want, ok := exp[cl.doc]
-				if !ok {
-					want, _ = refConv(docs[cl.doc])
-					exp[cl.doc] = want
 				}
 				if !bytes.Equal(cl.out, want) {
 					_, snip := diffSnippet(want, cl.out)
